@@ -354,7 +354,23 @@ func ruleCmd(c *Ctx) {
 						for ins := range reachableAfter(b, at) {
 							if ci, ok := ins.(*ssa.Call); ok && ins != at {
 								if f := ci.Call.StaticCallee(); f != nil {
-									if nr, _ := isNonReturningCall(ci); nr {
+									if nr, what := isNonReturningCall(ci); nr {
+										// leaving with a failure after the document is out is the write's own
+										// failure or nothing: anything else (a sync of a pipe, a close) turns a
+										// run that delivered its result into a failed one
+										own := false
+										if wc, isCall := at.(*ssa.Call); isCall && at.Parent() == ci.Parent() {
+											for _, e := range errResultOf(wc) {
+												for _, t := range nilTests(ci.Parent(), e) {
+													if edgeDominates(t.Blk, t.NonNilSucc, ci.Block()) {
+														own = true
+													}
+												}
+											}
+										}
+										if !own && what != "os.Exit(0)" {
+											bad = what + " at " + b.posOf(ci) + " can end the command with a failure after the document has been written, for a reason other than that write failing"
+										}
 										continue
 									}
 									if b.inRepoLib(f) || stdName(f) == "io/ioutil.ReadAll" || stdName(f) == "io.ReadAll" || stdName(f) == "os.ReadFile" || stdName(f) == "io/ioutil.ReadFile" {
